@@ -67,6 +67,8 @@ func Other() {
 	_, _, _ = vg0, vg1, vg2
 	var p *T // SITE-PTRVAR
 	var _ T // SITE-BLANK
+	var _, vb T // SITE-VAR-AFTER-BLANK
+	_ = vb
 	var i T = *e // SITE-VARINIT
 	q := Q{} // SITE-UNANNOTATED
 	var r Q // SITE-UNANNOTATED-VAR
@@ -113,6 +115,7 @@ func ZZC02Basic() {
 		{file, nd.LineOf(src, "SITE-NEW"), "CTOR02", ann},
 		{file, nd.LineOf(src, "SITE-VAR"), "CTOR03", ann},
 		{file, nd.LineOf(src, "SITE-VAR2"), "CTOR03", ann},
+		{file, nd.LineOf(src, "SITE-VAR-AFTER-BLANK"), "CTOR03", ann},
 		// inside a var ( ... ) group the diagnostic sits on the variable's own line
 		{file, nd.LineOf(src, "SITE-VARGROUP"), "CTOR03", ann},
 		{file, nd.LineOf(src, "SITE-PKG-VARGROUP"), "CTOR03", ann},
@@ -125,7 +128,8 @@ const c02SrcF1 = `package d
 
 //«ctor»
 type T struct {
-	f int
+	f    int
+	next *T
 }
 
 type Account = T
@@ -176,6 +180,12 @@ func Forms(n int) {
 	j := Outer{In: Account{}} // F-FIELD
 	k := Outer{Ptr: &Account{}} // F-FIELDPTR
 	l := new((Account)) // F-PAREN-NEW
+	nest := Account{ // F-NEST-OUTER
+		next: &Account{ // F-NEST-INNER
+			next: new(Account), // F-NEST-NEW
+		},
+	}
+	_ = nest
 	var m [2]Account // F-ARRAYVAR
 	var o Outer // F-OUTERVAR
 	for q := 0; q < n; q++ {
@@ -244,6 +254,10 @@ func ZZC02Forms() {
 		{f2, nd.LineOf(c02SrcF2, "F-FIELD"), "CTOR01", ann},
 		{f2, nd.LineOf(c02SrcF2, "F-FIELDPTR"), "CTOR01", ann},
 		{f2, nd.LineOf(c02SrcF2, "F-PAREN-NEW"), "CTOR02", ann},
+		// instantiations nested inside an already reported literal
+		{f2, nd.LineOf(c02SrcF2, "F-NEST-OUTER"), "CTOR01", ann},
+		{f2, nd.LineOf(c02SrcF2, "F-NEST-INNER"), "CTOR01", ann},
+		{f2, nd.LineOf(c02SrcF2, "F-NEST-NEW"), "CTOR02", ann},
 		{f2, nd.LineOf(c02SrcF2, "F-NESTED-BLOCK"), "CTOR01", ann},
 		{f2, nd.LineOf(c02SrcF2, "F-NESTED-VAR"), "CTOR03", ann},
 		{f2, nd.LineOf(c02SrcF2, "F-DEFER-NEW"), "CTOR02", ann},
